@@ -145,6 +145,10 @@ SumBlocks(bs, i, P, env) ==
              ELSE IF v.k # "assetval" THEN Err("mint amount")
              ELSE IF VIsEmpty(v.val) THEN Err("zero mint")
              ELSE AssetVal(VAdd(v.val, rest.val))
+\* some block states, for some class, an amount that alone does not fit the field (as a burn: its negation)
+BlockBeyondField(bs, sign, P, env) ==
+    \E i \in DOMAIN bs : LET v == MintBlockVal(bs[i], P, env)
+                         IN  ~Bad(v) /\ v.k = "assetval" /\ \E c \in DOMAIN v.val : ~InI64(IF sign < 0 THEN Neg(v.val[c]) ELSE v.val[c])
 MintOf(P, env) ==
     LET m == SumBlocks(P.tx.mints, 1, P, env)
         b == SumBlocks(P.tx.burns, 1, P, env)
@@ -152,7 +156,10 @@ MintOf(P, env) ==
         ELSE LET net == VSub(m.val, b.val)
              IN  IF \E c \in DOMAIN net : c.k # "defined" THEN Unspec
                  ELSE IF \E c \in DOMAIN net : ~InI64(net[c]) THEN Err("mint out of range")
-                 ELSE [k |-> "mint", val |-> [c \in {[policy |-> t.policy, name |-> t.name] : t \in DOMAIN net} |->
+                 \* when the net quantity fits although one block alone does not, the property fixes the emitted
+                 \* quantity, not whether the blocks are range-checked one by one: rejecting is admitted (lenient)
+                 ELSE [k |-> "mint", lenient |-> BlockBeyondField(P.tx.mints, 1, P, env) \/ BlockBeyondField(P.tx.burns, -1, P, env),
+                       val |-> [c \in {[policy |-> t.policy, name |-> t.name] : t \in DOMAIN net} |->
                                                  net[Defined(c.policy, c.name)]]]
 
 SlotField(e, P, env) ==
@@ -212,7 +219,7 @@ RewardRedeemers(P, env, wds) ==
 DenoteTx(P, env) ==
     LET t == P.tx
         outs == FlatMap(LAMBDA o : <<Output(o, P, env)>>, t.outputs)
-        mint == IF t.mints = <<>> /\ t.burns = <<>> THEN [k |-> "mint", val |-> [c \in {} |-> Zero]] ELSE MintOf(P, env)
+        mint == IF t.mints = <<>> /\ t.burns = <<>> THEN [k |-> "mint", lenient |-> FALSE, val |-> [c \in {} |-> Zero]] ELSE MintOf(P, env)
         since == IF IsAbsent(t.validity) THEN [k |-> "none"] ELSE SlotField(t.validity.since, P, env)
         until == IF IsAbsent(t.validity) THEN [k |-> "none"] ELSE SlotField(t.validity.until, P, env)
         signerVals == IF IsAbsent(t.signers) THEN <<>> ELSE DSeq(t.signers.items, "plain", P, env)
@@ -229,6 +236,7 @@ DenoteTx(P, env) ==
     IN  IF \E i \in DOMAIN parts : IsErr(parts[i]) THEN [k |-> "error", why |-> (parts[CHOOSE i \in DOMAIN parts : IsErr(parts[i])]).why]
         ELSE IF \E i \in DOMAIN parts : IsUnspec(parts[i]) THEN [k |-> "unspec"]
         ELSE [k |-> "tx",
+              mayReject |-> mint.lenient,      \* an error is admitted too; if a transaction is emitted it must be this one
               inputs |-> AllInputRefs(P, env),
               outputs |-> SelectSeq(outs, LAMBDA o : ~(o.optional /\ o.empty)),
               mint |-> mint.val,
